@@ -25,6 +25,8 @@ func c11Faults() []faultKind {
 	return []faultKind{
 		{name: "div0", mk: func() Expr { return Bin("/", N("1"), N("0")) }, selfCont: true},
 		{name: "mod0", mk: func() Expr { return Bin("%", N("7"), N("0")) }, selfCont: true},
+		{name: "div0-compound", mk: func() Expr { return &Paren{X: &Assign{Op: "/=", L: V("vnum"), R: N("0")}} }},
+		{name: "div0-computed", mk: func() Expr { return Bin("/", V("vnum"), &Paren{X: Bin("-", V("vnum"), V("vnum"))}) }},
 		{name: "call-null", mk: func() Expr { return CallE(&NullLit{}) }, selfCont: true},
 		{name: "call-number", mk: func() Expr { return CallE(V("vnum"), N("1")) }},
 		{name: "call-string", mk: func() Expr { return CallE(S("s")) }, selfCont: true},
@@ -512,7 +514,7 @@ func c11Run(c *Case) {
 func init() {
 	register(&Prop{
 		ID: "C11", Level: "fault_enumeration",
-		Rule:          "fault enumeration. (a) syntax splices: a generated valid host program (starting with BEGIN { print 'early' }) x 25 splice kinds (6 illegal bytes, unmatched ) ] }, lone quote, missing operands, return outside a function, break/continue outside a loop, assignment to a literal / arithmetic result / array literal, unterminated string / regex) inserted at a random token boundary or statement position: outcome must be `syntax` with empty stdout. (b) runtime faults: 26 fault kinds x 35 syntactic positions (every operand slot, prefix operand, callee, call/method argument, array element, object value, index, member base, if/while condition, for initialiser/condition/post, for-in iterable, match subject/body expression/body block, print/printf argument, nested blocks) x 3 contexts (BEGIN; pattern rule on the 2nd of 3 elements; function called from END), plus rule pattern, return value, BEGINFILE, ENDFILE and -r selector placements; each planted statement is surrounded by print 'pre' / print 'post'; stdout prefix and `runtime` outcome vs the reference model. Sampled: the same faults planted at random positions of structured programs. Every cell is non-trivial; distinct by (fault, position, context) or program text.",
+		Rule:          "fault enumeration. (a) syntax splices: a generated valid host program (starting with BEGIN { print 'early' }) x 25 splice kinds (6 illegal bytes, unmatched ) ] }, lone quote, missing operands, return outside a function, break/continue outside a loop, assignment to a literal / arithmetic result / array literal, unterminated string / regex) inserted at a random token boundary or statement position: outcome must be `syntax` with empty stdout. (b) runtime faults: 28 fault kinds x 35 syntactic positions (every operand slot, prefix operand, callee, call/method argument, array element, object value, index, member base, if/while condition, for initialiser/condition/post, for-in iterable, match subject/body expression/body block, print/printf argument, nested blocks) x 3 contexts (BEGIN; pattern rule on the 2nd of 3 elements; function called from END), plus rule pattern, return value, BEGINFILE, ENDFILE and -r selector placements; each planted statement is surrounded by print 'pre' / print 'post'; stdout prefix and `runtime` outcome vs the reference model. Sampled: the same faults planted at random positions of structured programs. Every cell is non-trivial; distinct by (fault, position, context) or program text.",
 		NumCases:      c11Cases,
 		Run:           c11Run,
 		MinConclusive: func(tier string) int { return 8000 },
